@@ -168,8 +168,13 @@ def run(ctx: Ctx) -> None:
                 ctx.begin_case("names", ci, family=ref.family, merge=ref.merge, task=str(conv.evaluation_task), name=name)
                 ctx.count("C14.registered_names_enumerated")
                 base = conv.convert_label(name).label
-                for vk, v in variants(name, r, n_rnd).items():
-                    lab = conv.convert_label(v, ["attr"])
+                for vi, (vk, v) in enumerate(variants(name, r, n_rnd).items()):
+                    # the label is a function of the name; the attribute list is carried along, whatever it holds - also
+                    # strings that are themselves registered names ("car", "unknown", ...)
+                    other = names[(names.index(name) + 1 + vi) % len(names)]
+                    attrs = [["attr"], [], ["vehicle.moving", other], [other], ["unknown"], [members[vi % len(members)], "x"]][vi % 6]
+                    lab = conv.convert_label(v, attrs)
+                    ctx.count("C14.attribute_lists_with_registered_names", int(any(a_ in ref.registered or a_ in members for a_ in attrs)))
                     ctx.check(lab.label is base, "C14/case_variant_maps_differently", dict(name=name, variant=v, got=str(lab.label), expected=str(base)), "convert_label")
                     ctx.check(conv.convert_name(v) is lab.label, "C14/convert_name_differs_from_convert_label", dict(name=v), "convert_name")
                     ctx.case((ref.family, conv.evaluation_task == EvaluationTask.CLASSIFICATION2D, ref.merge, name, vk), nontrivial=(v != name.lower()) or ref.merge, sample=dict(family=ref.family, task=str(conv.evaluation_task), merge=ref.merge, name=v, label=str(lab.label)) if (ci, name, vk) in ((0, "car", "upper"), (3, "green", "title")) else None)
